@@ -145,10 +145,22 @@ def run_case(case) -> CaseResult:
         def session_requested(self):
             return session_factory()
 
-    pair = Pair({'server_factory': Server, 'window': srv['window'],
-                 'max_pktsize': srv['pktsize'], 'encoding': srv['encoding']})
-    h = pair.h
+    sopts = {'server_factory': Server, 'window': srv['window'],
+             'max_pktsize': srv['pktsize'], 'encoding': srv['encoding']}
+    copts: Dict[str, Any] = {}
     labels = set()
+
+    # key re-exchanges in the middle of the traffic (byte limits on either
+    # side): packets held back during an exchange are sent afterwards
+    if case.get('srekey'):
+        sopts['rekey_bytes'] = case['srekey']
+        labels.add('rekey')
+    if case.get('crekey'):
+        copts['rekey_bytes'] = case['crekey']
+        labels.add('rekey')
+
+    pair = Pair(sopts, copts)
+    h = pair.h
 
     try:
         chunks = case['chunks']
@@ -389,7 +401,9 @@ def strategy(tier: str):
                       pick(['c', 's'])).map(list),
             st.tuples(st.just('pump'), st.integers(1, 8)).map(list))
         ops = draw(st.lists(op, min_size=1, max_size=max_ops))
-        return {'srv': srv, 'chans': chans, 'chunks': chunks, 'ops': ops}
+        return {'srv': srv, 'chans': chans, 'chunks': chunks, 'ops': ops,
+                'srekey': draw(pick([0, 0, 0, 300, 700, 20000])),
+                'crekey': draw(pick([0, 0, 0, 300, 700, 20000]))}
 
     return build()
 
@@ -546,7 +560,8 @@ FAMILIES = [
     Family('channels', run_case, strategy=strategy,
            budget={'quick': 320, 'thorough': 6000},
            required={'all': ['write>window', 'write>pkt', 'multibyte-split',
-                             'multi-chan', 'eof', 'pause', 'chunk-1byte']},
+                             'multi-chan', 'eof', 'pause', 'chunk-1byte',
+                             'rekey']},
            timeout_is_violation=True, case_timeout=120),
     Family('streams', run_streams, strategy=streams_strategy,
            budget={'quick': 600, 'thorough': 8000},
